@@ -787,370 +787,7 @@ func c20SDK(c *Ctx) {
 				"a negative "+fld+" (With"+fld+"(-1) or OTEL_BSP_* = -1) reaches make(): the constructor panics (makechan/makeslice: size out of range)")
 		}
 	}
-	// R4 (b) sdk/log batch settings chain
-	linfo := lx.Pkg.TypesInfo
-	// resolver kinds, by declaration (rename-tolerant), not by name
-	kindOf := map[*types.Func]string{}
-	for _, nm := range []string{"clearLessThanOne", "getenv", "fallback", "clampMax"} {
-		if h := lx.Func(nm); h != nil && h.Obj != nil {
-			kindOf[h.Obj] = nm
-		}
-	}
-	// sliceElems lists, element by element, the resolvers a spread argument holds: a literal, append(prefix, a, b),
-	// append(a, b...), or a local slice built up by straight-line appends in body (a variadic parameter stays as itself)
-	var sliceElems func(e ast.Expr, body *ast.BlockStmt, depth int) ([]ast.Expr, bool)
-	sliceElems = func(e ast.Expr, body *ast.BlockStmt, depth int) ([]ast.Expr, bool) {
-		if depth > 6 {
-			return nil, false
-		}
-		switch x := unparen(e).(type) {
-		case *ast.CompositeLit:
-			return x.Elts, true
-		case *ast.CallExpr:
-			switch builtinName(linfo, x) {
-			case "append":
-				if len(x.Args) == 0 {
-					return nil, false
-				}
-				head, ok := sliceElems(x.Args[0], body, depth+1)
-				if !ok {
-					return nil, false
-				}
-				out := append([]ast.Expr{}, head...)
-				if x.Ellipsis.IsValid() {
-					if len(x.Args) != 2 {
-						return nil, false
-					}
-					tail, ok := sliceElems(x.Args[1], body, depth+1)
-					if !ok {
-						return nil, false
-					}
-					return append(out, tail...), true
-				}
-				return append(out, x.Args[1:]...), true
-			case "make":
-				return nil, true
-			}
-			if cf := callee(linfo, x); cf != nil && cf.Pkg() != nil && cf.Pkg().Path() == "slices" && cf.Name() == "Concat" {
-				var out []ast.Expr
-				for _, a := range x.Args {
-					el, ok := sliceElems(a, body, depth+1)
-					if !ok {
-						return nil, false
-					}
-					out = append(out, el...)
-				}
-				return out, true
-			}
-		case *ast.Ident:
-			if x.Name == "nil" {
-				return nil, true
-			}
-			v, _ := linfo.Uses[x].(*types.Var)
-			if v == nil || body == nil {
-				return nil, false
-			}
-			// a local slice: the straight-line sequence of its definitions among body's own statements
-			var cur []ast.Expr
-			defined, other := false, false
-			for _, st := range body.List {
-				switch s := st.(type) {
-				case *ast.AssignStmt:
-					for i, l := range s.Lhs {
-						if id, isID := l.(*ast.Ident); isID && (linfo.Defs[id] == v || linfo.Uses[id] == v) && len(s.Lhs) == len(s.Rhs) {
-							var ok bool
-							if call, isC := unparen(s.Rhs[i]).(*ast.CallExpr); isC && builtinName(linfo, call) == "append" && len(call.Args) >= 1 && sameVar(linfo, call.Args[0], v) {
-								// v = append(v, …): extend what is there
-								rest := []ast.Expr{}
-								if call.Ellipsis.IsValid() && len(call.Args) == 2 {
-									rest, ok = sliceElems(call.Args[1], body, depth+1)
-									if !ok {
-										return nil, false
-									}
-								} else if !call.Ellipsis.IsValid() {
-									rest = call.Args[1:]
-								} else {
-									return nil, false
-								}
-								if !defined {
-									return nil, false
-								}
-								cur = append(append([]ast.Expr{}, cur...), rest...)
-								continue
-							}
-							cur, ok = sliceElems(s.Rhs[i], body, depth+1)
-							if !ok {
-								return nil, false
-							}
-							defined = true
-						}
-					}
-				case *ast.DeclStmt:
-					ast.Inspect(s, func(n ast.Node) bool {
-						if vs, isV := n.(*ast.ValueSpec); isV {
-							for i, nm := range vs.Names {
-								if linfo.Defs[nm] == v {
-									defined = true
-									cur = nil
-									if i < len(vs.Values) {
-										var ok bool
-										if cur, ok = sliceElems(vs.Values[i], body, depth+1); !ok {
-											other = true
-										}
-									}
-								}
-							}
-						}
-						return true
-					})
-				default:
-					// assigned inside a nested statement: not a straight-line build-up
-					ast.Inspect(st, func(n ast.Node) bool {
-						if as, isAs := n.(*ast.AssignStmt); isAs {
-							for _, l := range as.Lhs {
-								if sameVar(linfo, l, v) {
-									other = true
-								}
-							}
-						}
-						return true
-					})
-				}
-			}
-			if defined && !other {
-				return cur, true
-			}
-			if !defined {
-				// a (variadic) parameter: kept symbolic, substituted at the call
-				return []ast.Expr{x}, true
-			}
-		}
-		return nil, false
-	}
-	resolverNames := func(args []ast.Expr) []string {
-		var names []string
-		for _, a := range args {
-			nm := "?"
-			switch x := unparen(a).(type) {
-			case *ast.CallExpr:
-				if f2 := callee(linfo, x); f2 != nil {
-					nm = f2.Name()
-					if k, known := kindOf[f2.Origin()]; known {
-						nm = k
-					}
-				}
-			case *ast.Ident:
-				if v, isV := linfo.Uses[x].(*types.Var); isV {
-					nm = "@" + v.Name()
-				}
-			}
-			names = append(names, nm)
-		}
-		return names
-	}
-	isResolve := func(call *ast.CallExpr) bool {
-		cf := callee(linfo, call)
-		return cf != nil && cf.Name() == "Resolve" && cf.Type().(*types.Signature).Recv() != nil
-	}
-	// chain flattens s.Resolve(a...).Resolve(b...) and helpers that return p.Resolve(...) on a parameter p (possibly after
-	// building the resolver list in a local slice) into the setting it starts from and the sequence of resolvers applied to it
-	var chain func(e ast.Expr, body *ast.BlockStmt, depth int) (ast.Expr, []string)
-	chain = func(e ast.Expr, body *ast.BlockStmt, depth int) (ast.Expr, []string) {
-		call, ok := unparen(e).(*ast.CallExpr)
-		if !ok || depth > 4 {
-			return e, nil
-		}
-		if isResolve(call) {
-			recv, _ := methodCall(linfo, call)
-			root, names := chain(recv, body, depth+1)
-			args := call.Args
-			if call.Ellipsis.IsValid() && len(args) == 1 {
-				el, ok := sliceElems(args[0], body, 0)
-				if !ok {
-					return e, []string{"?"}
-				}
-				args = el
-			}
-			return root, append(names, resolverNames(args)...)
-		}
-		h := lx.declByObj(callee(linfo, call))
-		if h == nil || h.Body() == nil || len(h.Body().List) == 0 {
-			return e, nil
-		}
-		rs, isR := h.Body().List[len(h.Body().List)-1].(*ast.ReturnStmt)
-		if !isR || len(rs.Results) != 1 {
-			return e, nil
-		}
-		for _, st := range h.Body().List[:len(h.Body().List)-1] {
-			switch st.(type) {
-			case *ast.AssignStmt, *ast.DeclStmt:
-			default:
-				return e, nil
-			}
-		}
-		root, names := chain(rs.Results[0], h.Body(), depth+1)
-		if len(names) == 0 {
-			return e, nil
-		}
-		sig := h.Obj.Type().(*types.Signature)
-		ps := sig.Params()
-		// a variadic resolver parameter stands for the resolvers passed at this call
-		var subst []string
-		for _, nm := range names {
-			if strings.HasPrefix(nm, "@") {
-				done := false
-				if sig.Variadic() && ps.Len() >= 1 && ps.At(ps.Len()-1).Name() == nm[1:] && !call.Ellipsis.IsValid() {
-					if len(call.Args) >= ps.Len()-1 {
-						subst = append(subst, resolverNames(call.Args[ps.Len()-1:])...)
-						done = true
-					}
-				}
-				if !done {
-					subst = append(subst, "?")
-				}
-				continue
-			}
-			subst = append(subst, nm)
-		}
-		names = subst
-		for i := 0; i < ps.Len() && i < len(call.Args); i++ {
-			if sameVar(linfo, root, ps.At(i)) {
-				r2, n2 := chain(call.Args[i], body, depth+1)
-				return r2, append(n2, names...)
-			}
-		}
-		return e, nil
-	}
-	// settingChains judges, in a config constructor, every store into a setting-typed field: the resolver sequence that produced it
-	settingType := lookupType(lx.Pkg, "setting")
-	isSetting := func(t types.Type) bool {
-		n, ok := types.Unalias(t).(*types.Named)
-		return ok && settingType != nil && n.Origin().Obj() == settingType.Obj()
-	}
-	settingChains := func(fn *FuncInfo, judge func(fld string, recv ast.Expr, names []string, pos token.Pos)) int {
-		n := 0
-		inspectNoLit(fn.Body(), func(nd ast.Node) bool {
-			as, ok := nd.(*ast.AssignStmt)
-			if !ok || len(as.Lhs) != len(as.Rhs) {
-				return true
-			}
-			for i, l := range as.Lhs {
-				fv, _ := fieldOf(linfo, l)
-				if fv == nil || !isSetting(fv.Type()) {
-					continue
-				}
-				recv, names := chain(as.Rhs[i], fn.Body(), 0)
-				n++
-				judge(fv.Name(), recv, names, as.Rhs[i].Pos())
-			}
-			return true
-		})
-		return n
-	}
-	// does the shared environment resolver itself refuse values below one? (its store of the parsed value is reached only across
-	// a comparison that excludes them)
-	getenvRejects := false
-	if ge := lx.Func("getenv"); ge != nil {
-		fVal := lookupField(lx.Pkg, "setting", "Value")
-		for _, f := range lx.All {
-			if f.Lit == nil || lx.Outer(f) != ge {
-				continue
-			}
-			g := lx.FG(f)
-			stores := g.Match(func(n ast.Node) bool {
-				return assignRHS(n, func(e ast.Expr) bool { return isField(linfo, e, fVal) }) != nil
-			})
-			for _, st := range stores {
-				if d, _ := g.DominatedByEdges(st, func(e *GEdge) bool {
-					return edgeImplies(e, func(cnd ast.Expr, pol int) bool {
-						l, op, r, ok := cmpNorm(cnd, pol)
-						k, isC := constInt(linfo, r)
-						if !ok || !isC {
-							return false
-						}
-						if _, isV := objOf(linfo, l).(*types.Var); !isV {
-							return false
-						}
-						return (op == token.GEQ && k >= 1) || (op == token.GTR && k >= 0)
-					})
-				}); d {
-					getenvRejects = true
-				}
-			}
-		}
-	}
-	if fn := c.Fn(lx, "R4", "newBatchConfig"); fn != nil {
-		n := settingChains(fn, func(fld string, recv ast.Expr, names []string, pos token.Pos) {
-			// first resolver sanitises the option; every getenv is followed by a clearLessThanOne (or refuses values below one
-			// itself); fallback last
-			good := len(names) >= 2 && names[0] == "clearLessThanOne" && names[len(names)-1] == "fallback"
-			for i, nm := range names {
-				if nm == "getenv" && !getenvRejects && (i+1 >= len(names) || names[i+1] != "clearLessThanOne") {
-					good = false
-				}
-			}
-			c.Check(good, "R4", "sdk/log|newBatchConfig|Resolve("+exprStr(recv)+") sanitises every source before the fallback", at(lx.M, pos), strings.Join(names, " → "),
-				"a value < 1 from an option or OTEL_BLRP_* reaches the batch processor ("+strings.Join(names, " → ")+"): newRing/make/NewTicker panic on non-positive sizes and intervals")
-		})
-		if n < 5 {
-			c.Violation("R4", "sdk/log|newBatchConfig|every batch setting resolved", at(lx.M, fn.Pos()), fmt.Sprintf("only %d of the 5 batch settings are stored from a resolver chain", n))
-		}
-	}
-	// the log record limits are not sizes: zero and negative values have a documented meaning (no limit / truncate to
-	// nothing), so their chains are exactly option → environment → default, with nothing that unsets or clamps a value
-	if fn := c.Fn(lx, "R4", "newProviderConfig"); fn != nil {
-		n := settingChains(fn, func(fld string, recv ast.Expr, names []string, pos token.Pos) {
-			good := len(names) >= 2 && names[len(names)-1] == "fallback"
-			envs := 0
-			for _, nm := range names {
-				switch nm {
-				case "getenv":
-					envs++
-				case "fallback":
-				default:
-					good = false
-				}
-			}
-			if good && envs == 1 && getenvRejects {
-				c.Violation("R4", "sdk/log|newProviderConfig|"+fld+" resolves option → environment → default, values kept as given", at(lx.M, pos),
-					"the record limit "+fld+" takes its environment value through getenv, which now refuses integers below one: OTEL_LOGRECORD_ATTRIBUTE_* = 0 or a negative value (documented: truncate to nothing / no limit) is ignored in favour of the default, unlike the same value given through the option")
-				return
-			}
-			c.Check(good && envs == 1, "R4", "sdk/log|newProviderConfig|"+fld+" resolves option → environment → default, values kept as given", at(lx.M, pos), strings.Join(names, " → "),
-				"the record limit "+fld+" is resolved through "+strings.Join(names, " → ")+": a zero or negative limit (documented: no limit / truncate to nothing) from WithAttribute…Limit or OTEL_LOGRECORD_ATTRIBUTE_* is replaced instead of honoured, and a cleared option lets the environment override it")
-		})
-		if n < 2 {
-			c.Violation("R4", "sdk/log|newProviderConfig|both record limits resolved", at(lx.M, fn.Pos()), fmt.Sprintf("only %d of the 2 record limits are stored from a resolver chain", n))
-		}
-	}
-	c20SettingPrecedence(c, lx, "sdk/log", "getenv")
-	if fn := c.Fn(lx, "R4", "clearLessThanOne"); fn != nil {
-		for _, f := range lx.All {
-			if f.Lit == nil || lx.Parent[f.Lit] != fn {
-				continue
-			}
-			g := lx.FG(f)
-			fVal := lookupField(lx.Pkg, "setting", "Value")
-			fSet := lookupField(lx.Pkg, "setting", "Set")
-			clears := g.Match(func(n ast.Node) bool {
-				r := assignRHS(n, func(e ast.Expr) bool { return isField(linfo, e, fSet) })
-				if r == nil {
-					return false
-				}
-				tv := linfo.Types[r]
-				return tv.Value != nil && !constant.BoolVal(tv.Value)
-			})
-			// negative form: from entry, exit reachable without clearing only across the edge Value >= 1
-			s, _ := g.ReachFromEntry(func(x *GNode) bool { return toSet(clears)[x] }, func(e *GEdge) bool {
-				return edgeImplies(e, func(cnd ast.Expr, pol int) bool {
-					l, op, r, ok := cmpNorm(cnd, pol)
-					k, isC := constInt(linfo, r)
-					return ok && isField(linfo, l, fVal) && isC && ((op == token.GEQ && k >= 1) || (op == token.GTR && k >= 0))
-				})
-			})
-			c.Check(len(clears) == 1 && !s[g.Exit], "R4", "sdk/log|clearLessThanOne|Value < 1 ⇒ Set = false", at(lx.M, f.Pos()), "non-positive values are unset so the next source or the fallback applies", "clearLessThanOne lets values < 1 through")
-		}
-	}
+	ruleLogSettingChains(c, lx, "R4")
 	// R4 (c) periodic reader
 	minfo := mx.Pkg.TypesInfo
 	for _, nm := range []string{"WithInterval", "WithTimeout"} {
@@ -1807,4 +1444,375 @@ func isParamOf(v *types.Var, fn *FuncInfo) bool {
 		}
 	}
 	return false
+}
+
+// ruleLogSettingChains: the resolver chains of sdk/log. Batch settings: every source is sanitised before the fallback (sizes and
+// intervals below one panic in newRing/make/NewTicker). Record limits: exactly option → environment → default with the values
+// kept as given (zero and negative limits have a documented meaning). Shared by C20.R4 and C17.R8 (a limit that is cleared
+// or clamped on its way into the provider is not the limit the records obey).
+func ruleLogSettingChains(c *Ctx, lx *PkgIndex, rule string) {
+	// R4 (b) sdk/log batch settings chain
+	linfo := lx.Pkg.TypesInfo
+	// resolver kinds, by declaration (rename-tolerant), not by name
+	kindOf := map[*types.Func]string{}
+	for _, nm := range []string{"clearLessThanOne", "getenv", "fallback", "clampMax"} {
+		if h := lx.Func(nm); h != nil && h.Obj != nil {
+			kindOf[h.Obj] = nm
+		}
+	}
+	// sliceElems lists, element by element, the resolvers a spread argument holds: a literal, append(prefix, a, b),
+	// append(a, b...), or a local slice built up by straight-line appends in body (a variadic parameter stays as itself)
+	var sliceElems func(e ast.Expr, body *ast.BlockStmt, depth int) ([]ast.Expr, bool)
+	sliceElems = func(e ast.Expr, body *ast.BlockStmt, depth int) ([]ast.Expr, bool) {
+		if depth > 6 {
+			return nil, false
+		}
+		switch x := unparen(e).(type) {
+		case *ast.CompositeLit:
+			return x.Elts, true
+		case *ast.CallExpr:
+			switch builtinName(linfo, x) {
+			case "append":
+				if len(x.Args) == 0 {
+					return nil, false
+				}
+				head, ok := sliceElems(x.Args[0], body, depth+1)
+				if !ok {
+					return nil, false
+				}
+				out := append([]ast.Expr{}, head...)
+				if x.Ellipsis.IsValid() {
+					if len(x.Args) != 2 {
+						return nil, false
+					}
+					tail, ok := sliceElems(x.Args[1], body, depth+1)
+					if !ok {
+						return nil, false
+					}
+					return append(out, tail...), true
+				}
+				return append(out, x.Args[1:]...), true
+			case "make":
+				return nil, true
+			}
+			if cf := callee(linfo, x); cf != nil && cf.Pkg() != nil && cf.Pkg().Path() == "slices" && cf.Name() == "Concat" {
+				var out []ast.Expr
+				for _, a := range x.Args {
+					el, ok := sliceElems(a, body, depth+1)
+					if !ok {
+						return nil, false
+					}
+					out = append(out, el...)
+				}
+				return out, true
+			}
+		case *ast.Ident:
+			if x.Name == "nil" {
+				return nil, true
+			}
+			v, _ := linfo.Uses[x].(*types.Var)
+			if v == nil || body == nil {
+				return nil, false
+			}
+			// a local slice: the straight-line sequence of its definitions among body's own statements
+			var cur []ast.Expr
+			defined, other := false, false
+			for _, st := range body.List {
+				switch s := st.(type) {
+				case *ast.AssignStmt:
+					for i, l := range s.Lhs {
+						if id, isID := l.(*ast.Ident); isID && (linfo.Defs[id] == v || linfo.Uses[id] == v) && len(s.Lhs) == len(s.Rhs) {
+							var ok bool
+							if call, isC := unparen(s.Rhs[i]).(*ast.CallExpr); isC && builtinName(linfo, call) == "append" && len(call.Args) >= 1 && sameVar(linfo, call.Args[0], v) {
+								// v = append(v, …): extend what is there
+								rest := []ast.Expr{}
+								if call.Ellipsis.IsValid() && len(call.Args) == 2 {
+									rest, ok = sliceElems(call.Args[1], body, depth+1)
+									if !ok {
+										return nil, false
+									}
+								} else if !call.Ellipsis.IsValid() {
+									rest = call.Args[1:]
+								} else {
+									return nil, false
+								}
+								if !defined {
+									return nil, false
+								}
+								cur = append(append([]ast.Expr{}, cur...), rest...)
+								continue
+							}
+							cur, ok = sliceElems(s.Rhs[i], body, depth+1)
+							if !ok {
+								return nil, false
+							}
+							defined = true
+						}
+					}
+				case *ast.DeclStmt:
+					ast.Inspect(s, func(n ast.Node) bool {
+						if vs, isV := n.(*ast.ValueSpec); isV {
+							for i, nm := range vs.Names {
+								if linfo.Defs[nm] == v {
+									defined = true
+									cur = nil
+									if i < len(vs.Values) {
+										var ok bool
+										if cur, ok = sliceElems(vs.Values[i], body, depth+1); !ok {
+											other = true
+										}
+									}
+								}
+							}
+						}
+						return true
+					})
+				default:
+					// assigned inside a nested statement: not a straight-line build-up
+					ast.Inspect(st, func(n ast.Node) bool {
+						if as, isAs := n.(*ast.AssignStmt); isAs {
+							for _, l := range as.Lhs {
+								if sameVar(linfo, l, v) {
+									other = true
+								}
+							}
+						}
+						return true
+					})
+				}
+			}
+			if defined && !other {
+				return cur, true
+			}
+			if !defined {
+				// a (variadic) parameter: kept symbolic, substituted at the call
+				return []ast.Expr{x}, true
+			}
+		}
+		return nil, false
+	}
+	resolverNames := func(args []ast.Expr) []string {
+		var names []string
+		for _, a := range args {
+			nm := "?"
+			switch x := unparen(a).(type) {
+			case *ast.CallExpr:
+				if f2 := callee(linfo, x); f2 != nil {
+					nm = f2.Name()
+					if k, known := kindOf[f2.Origin()]; known {
+						nm = k
+					}
+				}
+			case *ast.Ident:
+				if v, isV := linfo.Uses[x].(*types.Var); isV {
+					nm = "@" + v.Name()
+				}
+			}
+			names = append(names, nm)
+		}
+		return names
+	}
+	isResolve := func(call *ast.CallExpr) bool {
+		cf := callee(linfo, call)
+		return cf != nil && cf.Name() == "Resolve" && cf.Type().(*types.Signature).Recv() != nil
+	}
+	// chain flattens s.Resolve(a...).Resolve(b...) and helpers that return p.Resolve(...) on a parameter p (possibly after
+	// building the resolver list in a local slice) into the setting it starts from and the sequence of resolvers applied to it
+	var chain func(e ast.Expr, body *ast.BlockStmt, depth int) (ast.Expr, []string)
+	chain = func(e ast.Expr, body *ast.BlockStmt, depth int) (ast.Expr, []string) {
+		call, ok := unparen(e).(*ast.CallExpr)
+		if !ok || depth > 4 {
+			return e, nil
+		}
+		if isResolve(call) {
+			recv, _ := methodCall(linfo, call)
+			root, names := chain(recv, body, depth+1)
+			args := call.Args
+			if call.Ellipsis.IsValid() && len(args) == 1 {
+				el, ok := sliceElems(args[0], body, 0)
+				if !ok {
+					return e, []string{"?"}
+				}
+				args = el
+			}
+			return root, append(names, resolverNames(args)...)
+		}
+		h := lx.declByObj(callee(linfo, call))
+		if h == nil || h.Body() == nil || len(h.Body().List) == 0 {
+			return e, nil
+		}
+		rs, isR := h.Body().List[len(h.Body().List)-1].(*ast.ReturnStmt)
+		if !isR || len(rs.Results) != 1 {
+			return e, nil
+		}
+		for _, st := range h.Body().List[:len(h.Body().List)-1] {
+			switch st.(type) {
+			case *ast.AssignStmt, *ast.DeclStmt:
+			default:
+				return e, nil
+			}
+		}
+		root, names := chain(rs.Results[0], h.Body(), depth+1)
+		if len(names) == 0 {
+			return e, nil
+		}
+		sig := h.Obj.Type().(*types.Signature)
+		ps := sig.Params()
+		// a variadic resolver parameter stands for the resolvers passed at this call
+		var subst []string
+		for _, nm := range names {
+			if strings.HasPrefix(nm, "@") {
+				done := false
+				if sig.Variadic() && ps.Len() >= 1 && ps.At(ps.Len()-1).Name() == nm[1:] && !call.Ellipsis.IsValid() {
+					if len(call.Args) >= ps.Len()-1 {
+						subst = append(subst, resolverNames(call.Args[ps.Len()-1:])...)
+						done = true
+					}
+				}
+				if !done {
+					subst = append(subst, "?")
+				}
+				continue
+			}
+			subst = append(subst, nm)
+		}
+		names = subst
+		for i := 0; i < ps.Len() && i < len(call.Args); i++ {
+			if sameVar(linfo, root, ps.At(i)) {
+				r2, n2 := chain(call.Args[i], body, depth+1)
+				return r2, append(n2, names...)
+			}
+		}
+		return e, nil
+	}
+	// settingChains judges, in a config constructor, every store into a setting-typed field: the resolver sequence that produced it
+	settingType := lookupType(lx.Pkg, "setting")
+	isSetting := func(t types.Type) bool {
+		n, ok := types.Unalias(t).(*types.Named)
+		return ok && settingType != nil && n.Origin().Obj() == settingType.Obj()
+	}
+	settingChains := func(fn *FuncInfo, judge func(fld string, recv ast.Expr, names []string, pos token.Pos)) int {
+		n := 0
+		inspectNoLit(fn.Body(), func(nd ast.Node) bool {
+			as, ok := nd.(*ast.AssignStmt)
+			if !ok || len(as.Lhs) != len(as.Rhs) {
+				return true
+			}
+			for i, l := range as.Lhs {
+				fv, _ := fieldOf(linfo, l)
+				if fv == nil || !isSetting(fv.Type()) {
+					continue
+				}
+				recv, names := chain(as.Rhs[i], fn.Body(), 0)
+				n++
+				judge(fv.Name(), recv, names, as.Rhs[i].Pos())
+			}
+			return true
+		})
+		return n
+	}
+	// does the shared environment resolver itself refuse values below one? (its store of the parsed value is reached only across
+	// a comparison that excludes them)
+	getenvRejects := false
+	if ge := lx.Func("getenv"); ge != nil {
+		fVal := lookupField(lx.Pkg, "setting", "Value")
+		for _, f := range lx.All {
+			if f.Lit == nil || lx.Outer(f) != ge {
+				continue
+			}
+			g := lx.FG(f)
+			stores := g.Match(func(n ast.Node) bool {
+				return assignRHS(n, func(e ast.Expr) bool { return isField(linfo, e, fVal) }) != nil
+			})
+			for _, st := range stores {
+				if d, _ := g.DominatedByEdges(st, func(e *GEdge) bool {
+					return edgeImplies(e, func(cnd ast.Expr, pol int) bool {
+						l, op, r, ok := cmpNorm(cnd, pol)
+						k, isC := constInt(linfo, r)
+						if !ok || !isC {
+							return false
+						}
+						if _, isV := objOf(linfo, l).(*types.Var); !isV {
+							return false
+						}
+						return (op == token.GEQ && k >= 1) || (op == token.GTR && k >= 0)
+					})
+				}); d {
+					getenvRejects = true
+				}
+			}
+		}
+	}
+	if fn := c.Fn(lx, rule, "newBatchConfig"); fn != nil {
+		n := settingChains(fn, func(fld string, recv ast.Expr, names []string, pos token.Pos) {
+			// first resolver sanitises the option; every getenv is followed by a clearLessThanOne (or refuses values below one
+			// itself); fallback last
+			good := len(names) >= 2 && names[0] == "clearLessThanOne" && names[len(names)-1] == "fallback"
+			for i, nm := range names {
+				if nm == "getenv" && !getenvRejects && (i+1 >= len(names) || names[i+1] != "clearLessThanOne") {
+					good = false
+				}
+			}
+			c.Check(good, rule, "sdk/log|newBatchConfig|Resolve("+exprStr(recv)+") sanitises every source before the fallback", at(lx.M, pos), strings.Join(names, " → "),
+				"a value < 1 from an option or OTEL_BLRP_* reaches the batch processor ("+strings.Join(names, " → ")+"): newRing/make/NewTicker panic on non-positive sizes and intervals")
+		})
+		if n < 5 {
+			c.Violation(rule, "sdk/log|newBatchConfig|every batch setting resolved", at(lx.M, fn.Pos()), fmt.Sprintf("only %d of the 5 batch settings are stored from a resolver chain", n))
+		}
+	}
+	// the log record limits are not sizes: zero and negative values have a documented meaning (no limit / truncate to
+	// nothing), so their chains are exactly option → environment → default, with nothing that unsets or clamps a value
+	if fn := c.Fn(lx, rule, "newProviderConfig"); fn != nil {
+		n := settingChains(fn, func(fld string, recv ast.Expr, names []string, pos token.Pos) {
+			good := len(names) >= 2 && names[len(names)-1] == "fallback"
+			envs := 0
+			for _, nm := range names {
+				switch nm {
+				case "getenv":
+					envs++
+				case "fallback":
+				default:
+					good = false
+				}
+			}
+			if good && envs == 1 && getenvRejects {
+				c.Violation(rule, "sdk/log|newProviderConfig|"+fld+" resolves option → environment → default, values kept as given", at(lx.M, pos),
+					"the record limit "+fld+" takes its environment value through getenv, which now refuses integers below one: OTEL_LOGRECORD_ATTRIBUTE_* = 0 or a negative value (documented: truncate to nothing / no limit) is ignored in favour of the default, unlike the same value given through the option")
+				return
+			}
+			c.Check(good && envs == 1, rule, "sdk/log|newProviderConfig|"+fld+" resolves option → environment → default, values kept as given", at(lx.M, pos), strings.Join(names, " → "),
+				"the record limit "+fld+" is resolved through "+strings.Join(names, " → ")+": a zero or negative limit (documented: no limit / truncate to nothing) from WithAttribute…Limit or OTEL_LOGRECORD_ATTRIBUTE_* is replaced instead of honoured, and a cleared option lets the environment override it")
+		})
+		if n < 2 {
+			c.Violation(rule, "sdk/log|newProviderConfig|both record limits resolved", at(lx.M, fn.Pos()), fmt.Sprintf("only %d of the 2 record limits are stored from a resolver chain", n))
+		}
+	}
+	c20SettingPrecedence(c, lx, "sdk/log", "getenv")
+	if fn := c.Fn(lx, rule, "clearLessThanOne"); fn != nil {
+		for _, f := range lx.All {
+			if f.Lit == nil || lx.Parent[f.Lit] != fn {
+				continue
+			}
+			g := lx.FG(f)
+			fVal := lookupField(lx.Pkg, "setting", "Value")
+			fSet := lookupField(lx.Pkg, "setting", "Set")
+			clears := g.Match(func(n ast.Node) bool {
+				r := assignRHS(n, func(e ast.Expr) bool { return isField(linfo, e, fSet) })
+				if r == nil {
+					return false
+				}
+				tv := linfo.Types[r]
+				return tv.Value != nil && !constant.BoolVal(tv.Value)
+			})
+			// negative form: from entry, exit reachable without clearing only across the edge Value >= 1
+			s, _ := g.ReachFromEntry(func(x *GNode) bool { return toSet(clears)[x] }, func(e *GEdge) bool {
+				return edgeImplies(e, func(cnd ast.Expr, pol int) bool {
+					l, op, r, ok := cmpNorm(cnd, pol)
+					k, isC := constInt(linfo, r)
+					return ok && isField(linfo, l, fVal) && isC && ((op == token.GEQ && k >= 1) || (op == token.GTR && k >= 0))
+				})
+			})
+			c.Check(len(clears) == 1 && !s[g.Exit], rule, "sdk/log|clearLessThanOne|Value < 1 ⇒ Set = false", at(lx.M, f.Pos()), "non-positive values are unset so the next source or the fallback applies", "clearLessThanOne lets values < 1 through")
+		}
+	}
 }
